@@ -26,9 +26,10 @@ const int NT = 8;
 const char *const TypeName[NT] = {"i8", "u8", "i16", "u16", "i32", "u32", "i64", "u64"};
 const int TypeBits[NT] = {8, 8, 16, 16, 32, 32, 64, 64};
 const bool TypeSigned[NT] = {true, false, true, false, true, false, true, false};
-// argument types used for the 3-argument sums (indexes into Types): i8 u16 u32 i64 u64
-const int NT3 = 5;
-const int Sub3[NT3] = {0, 3, 5, 6, 7};
+// argument types used for the 3-argument sums (indexes into Types): i8 u32 i64 u64
+// (a 3-argument sum is the 2-argument step applied twice; the subset keeps compile time reasonable)
+const int NT3 = 4;
+const int Sub3[NT3] = {0, 5, 6, 7};
 
 i128 tmin(int t) { return TypeSigned[t] ? -((i128)1 << (TypeBits[t] - 1)) : 0; }
 i128 tmax(int t) { return TypeSigned[t] ? ((i128)1 << (TypeBits[t] - 1)) - 1 : ((i128)1 << TypeBits[t]) - 1; }
@@ -89,26 +90,26 @@ typedef SumOut (*Sum1P)(i128);
 typedef SumOut (*Sum2P)(i128, i128);
 typedef SumOut (*Sum3P)(i128, i128, i128);
 
-constexpr size_t Sub3c[NT3] = {0, 3, 5, 6, 7};
+constexpr size_t Sub3c[NT3] = {0, 5, 6, 7};
 template <size_t K> using T3 = T<Sub3c[K]>;
 
 template <size_t... K> constexpr std::array<LessP, 64> mkLess(std::index_sequence<K...>) { return {{&lessFn<T<K / 8>, T<K % 8>>...}}; }
 template <size_t... K> constexpr std::array<Sum2P, 64> mkInc2(std::index_sequence<K...>) { return {{&inc2Fn<T<K / 8>, T<K % 8>>...}}; }
-template <size_t... K> constexpr std::array<Sum3P, 125> mkInc3(std::index_sequence<K...>) { return {{&inc3Fn<T3<K / 25>, T3<K / 5 % 5>, T3<K % 5>>...}}; }
+template <size_t... K> constexpr std::array<Sum3P, 64> mkInc3(std::index_sequence<K...>) { return {{&inc3Fn<T3<K / 16>, T3<K / 4 % 4>, T3<K % 4>>...}}; }
 template <size_t... K> constexpr std::array<Sum1P, 64> mkNat1(std::index_sequence<K...>) { return {{&nat1Fn<T<K / 8>, T<K % 8>>...}}; }
 template <size_t... K> constexpr std::array<Sum2P, 512> mkNat2(std::index_sequence<K...>) { return {{&nat2Fn<T<K / 64>, T<K / 8 % 8>, T<K % 8>>...}}; }
-template <size_t S, size_t... K> constexpr std::array<Sum3P, 125> mkNat3(std::index_sequence<K...>) { return {{&nat3Fn<T<S>, T3<K / 25>, T3<K / 5 % 5>, T3<K % 5>>...}}; }
+template <size_t S, size_t... K> constexpr std::array<Sum3P, 64> mkNat3(std::index_sequence<K...>) { return {{&nat3Fn<T<S>, T3<K / 16>, T3<K / 4 % 4>, T3<K % 4>>...}}; }
 
 const std::array<LessP, 64> LessTab = mkLess(std::make_index_sequence<64>());
 const std::array<Sum2P, 64> Inc2Tab = mkInc2(std::make_index_sequence<64>());
-const std::array<Sum3P, 125> Inc3Tab = mkInc3(std::make_index_sequence<125>());
+const std::array<Sum3P, 64> Inc3Tab = mkInc3(std::make_index_sequence<64>());
 const std::array<Sum1P, 64> Nat1Tab = mkNat1(std::make_index_sequence<64>());
 const std::array<Sum2P, 512> Nat2Tab = mkNat2(std::make_index_sequence<512>());
-const std::array<Sum3P, 125> Nat3Tab[NT] = {
-    mkNat3<0>(std::make_index_sequence<125>()), mkNat3<1>(std::make_index_sequence<125>()),
-    mkNat3<2>(std::make_index_sequence<125>()), mkNat3<3>(std::make_index_sequence<125>()),
-    mkNat3<4>(std::make_index_sequence<125>()), mkNat3<5>(std::make_index_sequence<125>()),
-    mkNat3<6>(std::make_index_sequence<125>()), mkNat3<7>(std::make_index_sequence<125>())};
+const std::array<Sum3P, 64> Nat3Tab[NT] = {
+    mkNat3<0>(std::make_index_sequence<64>()), mkNat3<1>(std::make_index_sequence<64>()),
+    mkNat3<2>(std::make_index_sequence<64>()), mkNat3<3>(std::make_index_sequence<64>()),
+    mkNat3<4>(std::make_index_sequence<64>()), mkNat3<5>(std::make_index_sequence<64>()),
+    mkNat3<6>(std::make_index_sequence<64>()), mkNat3<7>(std::make_index_sequence<64>())};
 
 int sub3Index(int t) { for (int i = 0; i < NT3; ++i) if (Sub3[i] == t) return i; return -1; }
 
@@ -141,7 +142,10 @@ RefSum refSum(int s, std::initializer_list<i128> args) {
     return {true, sum, sum == tmax(s) ? "max" : "fit"};
 }
 
-void judgeSum(Ctx &ctx, const std::string &fnKey, int s, const SumOut &got, const RefSum &ref, bool checkStore, const std::string &what) {
+template <class W> void judgeSum(Ctx &ctx, const char *fnKeyC, int s, const SumOut &got, const RefSum &ref, bool checkStore, const W &mkWhat) {
+    const i128 expectStore = ref.has ? ref.value : tmax(s);
+    if (got.has == ref.has && (!got.has || got.value == ref.value) && (!checkStore || (got.stored == expectStore && got.returned == expectStore))) return;
+    const std::string fnKey = fnKeyC, what = mkWhat();
     if (got.has != ref.has)
         ctx.violation(fnKey + (got.has ? ":returned-sum-for-unrepresentable:" : ":nothing-for-representable:") + TypeName[s],
                       what + " returned " + (got.has ? str(got.value) : "nothing") + ", expected " + (ref.has ? str(ref.value) : "nothing"));
@@ -176,17 +180,17 @@ void runPoint(Ctx &ctx, const Point &p) {
         const RefSum ref = refSum(p.a, {p.va, p.vb});
         feat += std::string(TypeName[p.a]) + TypeName[p.b] + signClass(p.va, p.a) + signClass(p.vb, p.b) + ref.why;
         ctx.feature(feat);
-        judgeSum(ctx, "IncreaseSum2", p.a, got, ref, false, "IncreaseSum(" + std::string(TypeName[p.a]) + " " + str(p.va) + ", " + TypeName[p.b] + " " + str(p.vb) + ")");
+        judgeSum(ctx, "IncreaseSum2", p.a, got, ref, false, [&]() { return "IncreaseSum(" + std::string(TypeName[p.a]) + " " + str(p.va) + ", " + TypeName[p.b] + " " + str(p.vb) + ")"; });
         return; }
     case 'J': {
         const int ia = sub3Index(p.a), ib = sub3Index(p.b), ic = sub3Index(p.c);
         if (ia < 0 || ib < 0 || ic < 0 || !fits(p.a, p.va) || !fits(p.b, p.vb) || !fits(p.c, p.vc)) return;
-        const SumOut got = Inc3Tab[ia * 25 + ib * 5 + ic](p.va, p.vb, p.vc);
+        const SumOut got = Inc3Tab[ia * 16 + ib * 4 + ic](p.va, p.vb, p.vc);
         ctx.ubsanGate({"SquidMath.h"});
         const RefSum ref = refSum(p.a, {p.va, p.vb, p.vc});
         feat += std::string(TypeName[p.a]) + TypeName[p.b] + TypeName[p.c] + signClass(p.va, p.a) + signClass(p.vb, p.b) + signClass(p.vc, p.c) + ref.why;
         ctx.feature(feat);
-        judgeSum(ctx, "IncreaseSum3", p.a, got, ref, false, "IncreaseSum(" + std::string(TypeName[p.a]) + " " + str(p.va) + ", " + TypeName[p.b] + " " + str(p.vb) + ", " + TypeName[p.c] + " " + str(p.vc) + ")");
+        judgeSum(ctx, "IncreaseSum3", p.a, got, ref, false, [&]() { return "IncreaseSum(" + std::string(TypeName[p.a]) + " " + str(p.va) + ", " + TypeName[p.b] + " " + str(p.vb) + ", " + TypeName[p.c] + " " + str(p.vc) + ")"; });
         return; }
     case '1': {
         if (!fits(p.a, p.va)) return;
@@ -195,7 +199,7 @@ void runPoint(Ctx &ctx, const Point &p) {
         const RefSum ref = refSum(p.s, {p.va});
         feat += std::string(TypeName[p.s]) + TypeName[p.a] + signClass(p.va, p.a) + ref.why;
         ctx.feature(feat);
-        judgeSum(ctx, "NaturalSum1", p.s, got, ref, true, "NaturalSum<" + std::string(TypeName[p.s]) + ">(" + TypeName[p.a] + " " + str(p.va) + ")");
+        judgeSum(ctx, "NaturalSum1", p.s, got, ref, true, [&]() { return "NaturalSum<" + std::string(TypeName[p.s]) + ">(" + TypeName[p.a] + " " + str(p.va) + ")"; });
         return; }
     case '2': {
         if (!fits(p.a, p.va) || !fits(p.b, p.vb)) return;
@@ -204,17 +208,17 @@ void runPoint(Ctx &ctx, const Point &p) {
         const RefSum ref = refSum(p.s, {p.va, p.vb});
         feat += std::string(TypeName[p.s]) + TypeName[p.a] + TypeName[p.b] + signClass(p.va, p.a) + signClass(p.vb, p.b) + ref.why;
         ctx.feature(feat);
-        judgeSum(ctx, "NaturalSum2", p.s, got, ref, true, "NaturalSum<" + std::string(TypeName[p.s]) + ">(" + TypeName[p.a] + " " + str(p.va) + ", " + TypeName[p.b] + " " + str(p.vb) + ")");
+        judgeSum(ctx, "NaturalSum2", p.s, got, ref, true, [&]() { return "NaturalSum<" + std::string(TypeName[p.s]) + ">(" + TypeName[p.a] + " " + str(p.va) + ", " + TypeName[p.b] + " " + str(p.vb) + ")"; });
         return; }
     case '3': {
         const int ia = sub3Index(p.a), ib = sub3Index(p.b), ic = sub3Index(p.c);
         if (ia < 0 || ib < 0 || ic < 0 || !fits(p.a, p.va) || !fits(p.b, p.vb) || !fits(p.c, p.vc)) return;
-        const SumOut got = Nat3Tab[p.s][ia * 25 + ib * 5 + ic](p.va, p.vb, p.vc);
+        const SumOut got = Nat3Tab[p.s][ia * 16 + ib * 4 + ic](p.va, p.vb, p.vc);
         ctx.ubsanGate({"SquidMath.h"});
         const RefSum ref = refSum(p.s, {p.va, p.vb, p.vc});
         feat += std::string(TypeName[p.s]) + TypeName[p.a] + TypeName[p.b] + TypeName[p.c] + signClass(p.va, p.a) + signClass(p.vb, p.b) + signClass(p.vc, p.c) + ref.why;
         ctx.feature(feat);
-        judgeSum(ctx, "NaturalSum3", p.s, got, ref, true, "NaturalSum<" + std::string(TypeName[p.s]) + ">(" + TypeName[p.a] + " " + str(p.va) + ", " + TypeName[p.b] + " " + str(p.vb) + ", " + TypeName[p.c] + " " + str(p.vc) + ")");
+        judgeSum(ctx, "NaturalSum3", p.s, got, ref, true, [&]() { return "NaturalSum<" + std::string(TypeName[p.s]) + ">(" + TypeName[p.a] + " " + str(p.va) + ", " + TypeName[p.b] + " " + str(p.vb) + ", " + TypeName[p.c] + " " + str(p.vc) + ")"; });
         return; }
     default: return;
     }
